@@ -216,7 +216,7 @@ Theorem C14_source_drain_bounds : forall len cap base s e,
   call_fn src_fns en "string_drain_end" [vrange s e] = opt_or_panic (VecModel.range_end e len).
 Proof. exact src_string_drain_bounds_ok. Qed.
 
-Theorem C14_source_frames : forallb snd src_frames_string = true /\ List.length src_frames_string = 12%nat.
+Theorem C14_source_frames : forallb snd src_frames_string = true /\ List.length src_frames_string = 13%nat.
 Proof. split; [exact src_frames_string_ok | reflexivity]. Qed.
 
 (* those moves, done to a buffer with any spare capacity behind the text, give the model's result:
@@ -268,3 +268,27 @@ Theorem C14_retain_loop_is_model : forall s keep, Valid s -> (List.length (chars
   retain_run s (answers keep) = (s_retain s keep, false).
 Proof. exact retain_run_is_s_retain. Qed.
 Print Assumptions C14_retain_loop_is_model.
+
+(* String::drain: what the Drain yields.  The characters of the range are yielded from the front,
+   yielded from the back or left to be dropped — nothing twice, nothing lost — each of them a
+   well-formed character, and the string keeps what is outside the range *)
+Theorem C14_drain_yields : forall s a b front back d, Valid s -> s_drain s a b front back = SRet d ->
+  let sub := firstn (N.to_nat b - N.to_nat a) (skipn (N.to_nat a) s) in
+  sd_rest d = firstn (N.to_nat a) s ++ skipn (N.to_nat b) s /\ Valid (sd_rest d) /\
+  Valid sub /\
+  List.concat (sd_front d) ++ List.concat (sd_left d) ++ List.concat (List.rev (sd_back d)) = sub /\
+  sd_front d = firstn front (chars sub) /\
+  sd_back d = firstn back (List.rev (skipn front (chars sub))) /\
+  Forall wf_char (sd_front d ++ sd_left d ++ sd_back d).
+Proof. exact s_drain_spec. Qed.
+Print Assumptions C14_drain_yields.
+
+(* pop as the source writes it: the last character leaves by set_len(len - ch.len_utf8()) *)
+Theorem C14_pop_assembled_from_source : forall s spare, Valid s ->
+  match List.rev (chars s) with
+  | [] => s = [] /\ s_pop s = ([], None)
+  | ch :: _ => fst (s_pop s) = mlen (s ++ spare) (List.length s - List.length ch) /\ snd (s_pop s) = decode ch /\
+               (List.length ch <= List.length s)%nat
+  end.
+Proof. exact pop_is_assembled. Qed.
+Print Assumptions C14_pop_assembled_from_source.
